@@ -26,7 +26,7 @@ COMMON = ["-std=gnu99", "-D_GNU_SOURCE", "-g", "-fno-omit-frame-pointer", "-pthr
 VARIANTS = {
     "asan": (["gcc", "-O1", "-fsanitize=address,undefined", "-fno-sanitize-recover=undefined"], ["-fsanitize=address,undefined"]),
     "plain": (["gcc", "-O2"], []),
-    "tsan": (["clang", "-O1", "-fsanitize=thread"], ["-fsanitize=thread"]),
+    "tsan": (["clang", "-O0", "-fsanitize=thread"], ["-fsanitize=thread"]),
 }
 LIBS = ["-llapack", "-lblas", "-lsqlite3", "-lm", "-lpthread"]
 ENV = dict(os.environ, OPENBLAS_NUM_THREADS="1", OMP_NUM_THREADS="1",
